@@ -326,9 +326,12 @@ def run_case(ck, desc):
     chi = float(av.max() / av.min())
     # the time-quadrature part of the constant belongs to the t^-1/2 flux transient at the fracture
     # face, whose amplitude scales with sqrt(diffusivity there / diffusivity at initial pressure)
-    a_f = float(av[0] / np.interp(m_i, ms_s, al_s))
+    # (... or wherever the diffusivity peaks between the two pressures: a viscosity kink can put the
+    # maximum in the INTERIOR, 13 x the value at p_i with both ends near 1 - sweep #6 met two such
+    # tables, constant 5.3 against the 4.1 that the frac-face value alone allowed)
+    a_f = float(av.max() / np.interp(m_i, ms_s, al_s))
     Kc = 2.0 + 1.25 * (Kc - 1.5) * max(1.0, math.sqrt(a_f))
-    bound = (1.2 * Kc / nx + 1.25 * delta + 0.6 * jump) * ceiling  # (the sharp clause is 4b below)
+    bound = (1.3 * Kc / nx + 1.25 * delta + 0.6 * jump) * ceiling  # (the sharp clause is 4b below)
     if not ck.margin("flux vs in-place gap <= first-order bound", gap, bound):
         ck.violation("recoveries-agree", {"gap": gap, "bound": bound, "gap/ceiling x nx": gap / ceiling * nx, "delta": delta, "jump_term": jump, "nx": nx, "ceiling": ceiling}, desc)
     ck.note_max("largest_(gap/ceiling - 1.25 delta) x nx", (gap / ceiling - 1.25 * delta) * nx)
@@ -341,8 +344,10 @@ def run_case(ck, desc):
     if resid is not None:
         obs_resid = float(np.max(np.abs(resid)))
         ck.note_max("largest_(unexplained gap / ceiling) x nx / K", obs_resid / ceiling * nx / Kc)
-        if not ck.margin("gap not explained by the table's inconsistency <= first-order bound", obs_resid, (Kc / nx + 0.6 * jump) * ceiling + 1e-12):
-            ck.violation("recoveries-agree", {"unexplained_gap": obs_resid, "bound": (Kc / nx + 0.6 * jump) * ceiling, "unexplained/ceiling x nx": obs_resid / ceiling * nx, "gap": gap, "delta": delta, "nx": nx}, desc)
+        # (1.3 K: over 1 500 runs aimed at the worst corner - r = 4, p_f/p_i <= 0.3, interior diffusivity
+        # peaks - the largest unexplained gap was 0.98 K / nx; see DESIGN section 9)
+        if not ck.margin("gap not explained by the table's inconsistency <= first-order bound", obs_resid, (1.3 * Kc / nx + 0.6 * jump) * ceiling + 1e-12):
+            ck.violation("recoveries-agree", {"unexplained_gap": obs_resid, "bound": (1.3 * Kc / nx + 0.6 * jump) * ceiling, "unexplained/ceiling x nx": obs_resid / ceiling * nx, "gap": gap, "delta": delta, "nx": nx}, desc)
     obs = {"nx": nx, "gap/ceiling": gap / ceiling, "delta": delta, "delta_mid": delta_mid, "rfd_end/ceiling": float(rfd[-1]) / ceiling, "K": Kc, "chi": chi}
     # 5. gap shrinks under refinement (two-rung ladder, constant drawdown, consistent tables only)
     if desc.get("ladder") and not levels and nx == 25:
